@@ -328,6 +328,55 @@ def check_big(fails):
     return n
 
 
+def check_parsed_dates(fails):
+    """C13 deterministic family: date ranges written in the query language - every bracket combination, day / second /
+    microsecond precision - select exactly the documents inside the interval (an exclusive bound excludes the whole period
+    the date string names)."""
+    import datetime
+    from whoosh import fields
+    from whoosh.filedb.filestore import RamStorage
+    from whoosh.qparser import QueryParser
+    schema = fields.Schema(k=fields.ID(stored=True), d=fields.DATETIME)
+    ix = RamStorage().create_index(schema)
+    w = ix.writer()
+    for i in range(7):
+        w.add_document(k=u"%d" % i, d=datetime.datetime(2010, 1, i + 1, 12))
+    w.commit()
+    with ix.searcher() as s:
+        qp = QueryParser("d", schema)
+        for lo, hi in ((u"20100102", u"20100105"), (u"20100102120000", u"20100105120000"),
+                       (u"20100102120000000000", u"20100105120000000000"), (u"201001", u"201001"), (u"20100103", u"20100103")):
+            for lb, sx in ((u"[", False), (u"{", True)):
+                for rb, ex in ((u"]", False), (u"}", True)):
+                    text = u"d:%s%s TO %s%s" % (lb, lo, hi, rb)
+
+                    def period(sv):
+                        fmt = {6: "%Y%m", 8: "%Y%m%d", 14: "%Y%m%d%H%M%S", 20: "%Y%m%d%H%M%S%f"}[len(sv)]
+                        a = datetime.datetime.strptime(sv, fmt)
+                        if len(sv) == 6:
+                            b = datetime.datetime(a.year, a.month + 1, 1) - datetime.timedelta(microseconds=1)
+                        elif len(sv) == 8:
+                            b = a + datetime.timedelta(days=1, microseconds=-1)
+                        elif len(sv) == 14:
+                            b = a + datetime.timedelta(seconds=1, microseconds=-1)
+                        else:
+                            b = a
+                        return a, b
+                    (la, lb_), (ha, hb) = period(lo), period(hi)
+                    exp = []
+                    for i in range(7):
+                        v = datetime.datetime(2010, 1, i + 1, 12)
+                        if (v > lb_ if sx else v >= la) and (v < ha if ex else v <= hb):
+                            exp.append(i)
+                    try:
+                        got = sorted(int(h["k"]) for h in s.search(qp.parse(text), limit=None))
+                    except Exception as e:
+                        got = "%s: %s" % (type(e).__name__, e)
+                    if got != exp:
+                        fails.append({"case": "C01-parsed/daterange", "detail": "%s -> %r expected %r" % (text, got, exp), "corpus": None})
+                        return
+
+
 def main():
     if sys.argv[1] == "--corpus":
         corpus = json.loads(sys.argv[2])
@@ -351,6 +400,7 @@ def main():
     tempfile.tempdir = tmp
     try:
         check_big(fails)
+        check_parsed_dates(fails)
     except Exception as e:
         fails.append({"case": "exception/big", "detail": "%s: %s | %s" % (type(e).__name__, e, traceback.format_exc()[-400:]), "corpus": None})
     import shutil
